@@ -45,6 +45,9 @@ def one(sid, suite):
     checks = CHECKS_FOR.get(sid, [sid.split('-')[0]])
     if '--no-checks' in sys.argv:
         checks = []
+    if '--checks' in sys.argv:
+        # explicit list (results are merged into the ones recorded earlier)
+        checks = sys.argv[sys.argv.index('--checks') + 1].split(',')
     cmd = ['python3', os.path.join(VERIF, 'tools', 'eval_mutant.py'), sd] + \
         checks + (['--suite'] if suite else [])
     p = subprocess.run(cmd, capture_output=True, text=True)
@@ -102,6 +105,8 @@ def one(sid, suite):
 
 def main():
     args = [a for a in sys.argv[1:] if not a.startswith('--')]
+    if '--checks' in sys.argv:
+        args.remove(sys.argv[sys.argv.index('--checks') + 1])
     suite = '--suite' in sys.argv
     jobs = 3
     if '--jobs' in sys.argv:
